@@ -352,6 +352,29 @@ func checkGenRand(c genRandCase) *vk.Failure {
 		if ne > lim {
 			return vk.Failf("smallworldsbb-size", "n=%d d=%d: %d edges, more than n*d", n, d, ne)
 		}
+		if p == 0 {
+			// "Node degree is specified by d and edge replacement by the
+			// probability, p": without replacement the graph is the ring lattice in
+			// which every node is joined to its d nearest neighbours on either side.
+			for u := 0; u < n; u++ {
+				for v := 0; v < n; v++ {
+					if u == v {
+						continue
+					}
+					gap := (v - u + n) % n
+					lattice := gap <= d || n-gap <= d
+					var has bool
+					if c.Dir {
+						has = dst.(graph.Directed).HasEdgeFromTo(int64(u), int64(v))
+					} else {
+						has = dst.HasEdgeBetween(int64(u), int64(v))
+					}
+					if has != lattice {
+						return vk.Failf("smallworldsbb-p0-not-ring-lattice", "SmallWorldsBB(n=%d, d=%d, p=0, dir=%v): edge %d-%d present=%v, in the ring lattice=%v; the graph has %d edges, the lattice has %d", n, d, c.Dir, u, v, has, lattice, ne, lim)
+					}
+				}
+			}
+		}
 	case "powerlaw", "bipartitepowerlaw":
 		d := c.M
 		var mg interface {
